@@ -285,6 +285,18 @@ func filter(prop string, vs []*Violation) *Violation {
 		if v == nil {
 			continue
 		}
+		if strings.HasPrefix(v.Key, "HARNESS-") {
+			// a problem of the machinery: never a violation
+			fmt.Fprintf(os.Stderr, "HARNESS-ERROR: %s\n", v)
+			if OutDir != "" {
+				f, err := os.OpenFile(filepath.Join(OutDir, fmt.Sprintf("harness-error.%d.txt", Shard)), os.O_APPEND|os.O_CREATE|os.O_WRONLY, 0o644)
+				if err == nil {
+					fmt.Fprintln(f, v.String())
+					f.Close()
+				}
+			}
+			panic("HARNESS-ERROR: " + v.String())
+		}
 		if IsKnown(prop, v.Key) {
 			Rec(prop).Known(v.Key)
 			continue
